@@ -50,6 +50,7 @@ func clock() time.Time                  { return time.Now() }
 func same[T any](a, b T) bool           { return true }
 func sameArray[T any](a, b []T) bool    { return true }
 func typed[T any](p *T) bool            { return true }
+func liteContains(t *bart.Lite, ip netip.Addr) bool { return t.Contains(ip) }
 func locked[T any](m *T) bool           { return true }
 func mapof[K comparable, V any](m map[K]V) bool { return true }
 func has[K comparable, V any](m map[K]V, k K) bool {
@@ -595,6 +596,7 @@ func specIncoming(c *conn) bool {
 //@   assigns nothing
 //@ func github.com/slackhq/nebula/cert.(Certificate).UnsafeNetworks
 //@   trusted accessor of an immutable certificate
+//@   ensures same(result, self.UnsafeNetworks())
 //@   assigns nothing
 //@ func (*Firewall).Destroy
 //@   trusted unregisters metrics only
@@ -1043,9 +1045,11 @@ func specTunnelOK(h *HostInfo) bool {
 //@   requires f != nil && hostinfo != nil && ci != nil && ci.eKey != nil && f.l != nil && cap(scratch) >= 16 && len(nb) >= 12
 //@   requires[headroom] ci.messageCounter.Load() != ^uint64(0)
 //@   requires[free]     !locked(&ci.writeLock)
-//@   callrequires EncryptDanger same(arg0, ci.eKey) && arg4 == ci.messageCounter.Load() && arg4 == old(ci.messageCounter.Load())+1 && implies(noiseutil.EncryptLockNeeded, locked(&ci.writeLock))
-//@   ensures[once]     encrypted == 1 && ci.messageCounter.Load() == old(ci.messageCounter.Load())+1
-//@   ensures[ceiling]  implies(old(ci.messageCounter.Load())+1 >= RejectAfterMessages, len(result) == 0)
+//@   atcall (*Mutex).Lock havoc ci.messageCounter
+//@   atcall (*Mutex).Lock assume ci.messageCounter.Load() >= old(ci.messageCounter.Load()) && ci.messageCounter.Load() != ^uint64(0)
+//@   callrequires EncryptDanger same(arg0, ci.eKey) && arg4 == ci.messageCounter.Load() && arg4 > old(ci.messageCounter.Load()) && implies(!noiseutil.EncryptLockNeeded, arg4 == old(ci.messageCounter.Load())+1) && implies(noiseutil.EncryptLockNeeded, locked(&ci.writeLock))
+//@   ensures[once]     encrypted == 1 && ci.messageCounter.Load() > old(ci.messageCounter.Load())
+//@   ensures[ceiling]  implies(ci.messageCounter.Load() >= RejectAfterMessages, len(result) == 0)
 //@   ensures[released] !locked(&ci.writeLock)
 
 //@ func (*Interface).dropExhausted
@@ -1058,10 +1062,12 @@ func specTunnelOK(h *HostInfo) bool {
 //@   requires f != nil && via != nil && relay != nil && via.ConnectionState != nil && via.ConnectionState.eKey != nil && f.l != nil && f.connectionManager != nil && cap(out) >= 16 && len(nb) >= 12
 //@   requires[inv]  via.ConnectionState.messageCounter.Load() <= RejectAfterMessages
 //@   requires[free] !locked(&via.ConnectionState.writeLock)
-//@   callrequires EncryptDanger same(arg0, via.ConnectionState.eKey) && arg4 == via.ConnectionState.messageCounter.Load() && arg4 == old(via.ConnectionState.messageCounter.Load())+1 && arg4 < RejectAfterMessages && implies(noiseutil.EncryptLockNeeded, locked(&via.ConnectionState.writeLock))
+//@   atcall (*Mutex).Lock havoc via.ConnectionState.messageCounter
+//@   atcall (*Mutex).Lock assume via.ConnectionState.messageCounter.Load() >= old(via.ConnectionState.messageCounter.Load()) && via.ConnectionState.messageCounter.Load() <= RejectAfterMessages
+//@   callrequires EncryptDanger same(arg0, via.ConnectionState.eKey) && arg4 == via.ConnectionState.messageCounter.Load() && arg4 > old(via.ConnectionState.messageCounter.Load()) && implies(!noiseutil.EncryptLockNeeded, arg4 == old(via.ConnectionState.messageCounter.Load())+1) && arg4 < RejectAfterMessages && implies(noiseutil.EncryptLockNeeded, locked(&via.ConnectionState.writeLock))
 //@   ensures[once]     encrypted <= 1 && implies(result1 == nil, encrypted == 1)
 //@   ensures[counter]  via.ConnectionState.messageCounter.Load() >= old(via.ConnectionState.messageCounter.Load()) && via.ConnectionState.messageCounter.Load() <= RejectAfterMessages
-//@   ensures[ceiling]  implies(old(via.ConnectionState.messageCounter.Load())+1 >= RejectAfterMessages, encrypted == 0 && result1 != nil)
+//@   ensures[ceiling]  implies(via.ConnectionState.messageCounter.Load() >= RejectAfterMessages, encrypted == 0 && result1 != nil)
 //@   ensures[released] !locked(&via.ConnectionState.writeLock)
 
 //@ func (*Interface).SendVia
@@ -1085,7 +1091,9 @@ func specTunnelOK(h *HostInfo) bool {
 //@   requires[buf]  cap(out) >= 96+len(p) && len(p) <= 1<<20 && 0 <= q && q < len(f.writers) && f.writers[q] != nil
 //@   requires[inv]  ci.messageCounter.Load() <= RejectAfterMessages
 //@   requires[free] !locked(&ci.writeLock)
-//@   callrequires EncryptDanger same(arg0, ci.eKey) && arg4 == ci.messageCounter.Load() && arg4 == old(ci.messageCounter.Load())+1 && arg4 < RejectAfterMessages && implies(noiseutil.EncryptLockNeeded, locked(&ci.writeLock))
+//@   atcall (*Mutex).Lock havoc ci.messageCounter
+//@   atcall (*Mutex).Lock assume ci.messageCounter.Load() >= old(ci.messageCounter.Load()) && ci.messageCounter.Load() <= RejectAfterMessages
+//@   callrequires EncryptDanger same(arg0, ci.eKey) && arg4 == ci.messageCounter.Load() && arg4 > old(ci.messageCounter.Load()) && implies(!noiseutil.EncryptLockNeeded, arg4 == old(ci.messageCounter.Load())+1) && arg4 < RejectAfterMessages && implies(noiseutil.EncryptLockNeeded, locked(&ci.writeLock))
 //@   ensures[counter]  ci.messageCounter.Load() >= old(ci.messageCounter.Load())
 //@   ensures[released] !locked(&ci.writeLock)
 //@   loop 1 invariant ci.messageCounter.Load() >= old(ci.messageCounter.Load()) && !locked(&ci.writeLock)
@@ -1187,7 +1195,25 @@ func specNetFound(t *bart.Table[NetworkType], ip netip.Addr) bool { return false
 //@   callrequires Contains arg1 == fp.LocalAddr
 //@   callrequires (*Table).Lookup arg0 == h.networks && arg1 == fp.RemoteAddr
 //@   ensures[remote] implies(result == nil, ite(h.networks == nil, fp.RemoteAddr == h.vpnAddrs[0], specNetFound(h.networks, fp.RemoteAddr) && (specNetType(h.networks, fp.RemoteAddr) == NetworkTypeVPN || specNetType(h.networks, fp.RemoteAddr) == NetworkTypeUnsafe)))
-//@   ensures[local]  implies(result == nil, routable >= 1)
+//@   ensures[local]  implies(result == nil, liteContains(f.routableNetworks, fp.LocalAddr))
+
+// buildNetworks: every entry put into the peer's network table is either one
+// of the certificate's unsafe networks, typed Unsafe, or a single certified
+// address (a full-length prefix) typed "inside our networks" exactly when our
+// own network table contains it and "peer address outside our networks"
+// otherwise. (That every certified address and unsafe network is inserted is
+// not covered: the loops' hidden indexes cannot be named in an invariant.)
+//@ func github.com/gaissmai/bart.(*Table).Insert
+//@   trusted inserts or replaces the prefix in the table
+//@   assigns nothing
+//@ func (*HostInfo).buildNetworks
+//@   props C17
+//@   requires i != nil && c != nil && myVpnNetworksTable != nil
+//@   callrequires (*Table).Insert arg0 == i.networks && ((arg2 == NetworkTypeUnsafe) || (arg1.Bits() == arg1.Addr().BitLen() && arg2 == ite(liteContains(myVpnNetworksTable, arg1.Addr()), NetworkTypeVPN, NetworkTypeVPNPeer)))
+//@   old n0 = i.networks
+//@   ensures[simple] implies(i.networks == n0, len(c.Networks()) == 1 && len(c.UnsafeNetworks()) == 0 && liteContains(myVpnNetworksTable, c.Networks()[0].Addr()))
+//@   loop 1 invariant i.networks != nil && fresh(i.networks)
+//@   loop 2 invariant i.networks != nil && fresh(i.networks)
 
 // =====================================================================
 // C42 — certificate reload never changes a node's identity
